@@ -191,8 +191,8 @@ def _c17(tier, seed):
 
 
 def c18(tier, seed):
-    return combine([schwab_family(tier)], ['with_cancel', 'hostile_text', 'permutations'],
-                   'every export of at most 3 (thorough: 4) rows over an alphabet of 22 row shapes, all orders, duplicates included: '
+    return combine([schwab_family(tier), awards_family(tier)], ['with_cancel', 'hostile_text', 'permutations'],
+                   'every export of at most 3 (thorough: 4) rows over an alphabet of 23 row shapes, all orders, duplicates included: '
                    'TLC runs the two-pass Schwab.tla machine with its invariants (each Cancel Sell removes exactly one identical '
                    'Sell, nothing relevant disappears silently, dividend / withholding totals) and prints the expected lines; the '
                    'real converter\'s output must parse as DSL whatever the free text contains, equal the expected multiset, be '
